@@ -264,9 +264,10 @@ R.uf("est_of", ["str", "Un[Payload]"], "int")                    # LogStager's s
 R.uf("drain_order", ["List[" + PAIR + "]"], "List[" + PAIR + "]")   # drain_sorted's deterministic order of a buffer
 EST = "est_of(file_path, payload)"
 R.funtype("StageFn", params=["file_path", "key", "payload"],
-          raises={"RuntimeError": "sbytes + " + EST + " > limit"},
+          # repaired LogStager (fix: back-pressure only while something is buffered)
+          raises={"RuntimeError": "len(buf) > 0 and sbytes + " + EST + " > limit"},
           exc_info=("'RuntimeError'", "'LOG_STAGING_BACKPRESSURE'"),
-          ensures=["sbytes + " + EST + " <= limit"],
+          ensures=["len(buf) == 0 or sbytes + " + EST + " <= limit"],
           effects=["buf.append((file_path, payload))", "sbytes = sbytes + " + EST])
 R.funtype("DrainFn", params=[], returns="List[SRec]",
           ensures=["len(result) == len(buf)",
@@ -280,7 +281,7 @@ RB = OP + "_run_agents_parallel_batch#"
 REGION_GHOST = {"buf": ("List[" + PAIR + "]", "any"), "sbytes": ("int", "any"), "limit": ("int", "any"),
                 "written": ("List[" + PAIR + "]", "empty")}
 # LogStager invariant on entry: 0 <= _bytes <= byte_limit; the property quantifies over byte limits from 1 upward
-REGION_REQ = [("stager-invariant", "0 <= sbytes and sbytes <= limit and limit >= 1")]
+REGION_REQ = [("stager-invariant", "0 <= sbytes and limit >= 1 and (sbytes <= limit or len(buf) == 1) and implies(len(buf) == 0, sbytes == 0)")]
 
 
 def _region_contract(tag, fp, name, extra_req, types):
@@ -295,13 +296,13 @@ def _region_contract(tag, fp, name, extra_req, types):
         ensures=[
             ("record-staged-last", "len(buf) >= 1 and buf[len(buf) - 1][0] == " + fp + " and buf[len(buf) - 1][1] == payload"),
             ("fits-then-nothing-flushed",
-             "implies(old(sbytes) + " + est + " <= limit, len(written) == 0 and len(buf) == old(len(buf)) + 1 and "
+             "implies(old(sbytes) + " + est + " <= limit or old(len(buf)) == 0, len(written) == 0 and len(buf) == old(len(buf)) + 1 and "
              "forall(i, 0 <= i < old(len(buf)), buf[i] == old(buf)[i]))"),
             ("backpressure-then-whole-buffer-flushed-in-drain-order",
-             "implies(old(sbytes) + " + est + " > limit, len(written) == old(len(buf)) and len(buf) == 1 and "
+             "implies(old(sbytes) + " + est + " > limit and old(len(buf)) > 0, len(written) == old(len(buf)) and len(buf) == 1 and "
              "forall(i, 0 <= i < len(written), written[i] == drain_order(old(buf))[i]))"),
             ("nothing-lost-nothing-duplicated", "len(written) + len(buf) == old(len(buf)) + 1"),
-            ("stager-invariant-kept", "0 <= sbytes and sbytes <= limit"),
+            ("stager-invariant-kept", "0 <= sbytes and (sbytes <= limit or len(buf) == 1)"),
         ],
         # flush order and *success* must not depend on the byte limit: the region may not raise
         raises="none",
